@@ -49,17 +49,17 @@ theorem plug_append (p1 p2 : List Frame) (ks : List HTree) :
 @[simp] theorem handlesList_cons (k : HTree) (ks : List HTree) :
     handlesList (k :: ks) = handles k ++ handlesList ks := by simp [handlesList]
 
-@[simp] theorem handlesList_append (a b : List HTree) :
+@[simp] theorem fi_handlesList_append (a b : List HTree) :
     handlesList (a ++ b) = handlesList a ++ handlesList b := by
   induction a with
   | nil => simp
   | cons k ks ih => simp [ih]
 
-theorem handles_eq (t : HTree) : handles t = t.handle :: handlesList t.kids := by
+theorem fi_handles_eq (t : HTree) : handles t = t.handle :: handlesList t.kids := by
   cases t; simp [HTree.handle, HTree.kids]
 
-theorem handle_mem_handles (t : HTree) : t.handle ∈ handles t := by
-  rw [handles_eq]; simp
+theorem fi_handle_mem_handles (t : HTree) : t.handle ∈ handles t := by
+  rw [fi_handles_eq]; simp
 
 @[simp] theorem node_handle (h : Nat) (v : Value) (ks : List HTree) : (HTree.node h v ks).handle = h := rfl
 @[simp] theorem node_value (h : Nat) (v : Value) (ks : List HTree) : (HTree.node h v ks).value = v := rfl
@@ -72,7 +72,7 @@ theorem handlesList_plug_perm (path : List Frame) (ks : List HTree) :
   induction path with
   | nil => simp [pathHandles]
   | cons fr rest ih =>
-    simp only [plug_cons, handlesList_append, handlesList_cons, handles_node, pathHandles,
+    simp only [plug_cons, fi_handlesList_append, handlesList_cons, handles_node, pathHandles,
       List.append_assoc, List.cons_append]
     refine List.Perm.append_left _ (List.Perm.cons _ ?_)
     -- handlesList (plug rest ks) ++ fr.r  ~  pathHandles rest ++ fr.r ++ ks
@@ -121,9 +121,9 @@ mutual
     | k :: ks => by
       intro hm
       simp only [handlesList_cons, List.mem_append, not_or] at hm
-      have hk : k.handle ≠ h := fun e => hm.1 (e ▸ handle_mem_handles k)
+      have hk : k.handle ≠ h := fun e => hm.1 (e ▸ fi_handle_mem_handles k)
       have hkids : h ∉ handlesList k.kids := by
-        intro hc; apply hm.1; rw [handles_eq]; exact List.mem_cons_of_mem _ hc
+        intro hc; apply hm.1; rw [fi_handles_eq]; exact List.mem_cons_of_mem _ hc
       unfold replaceKids
       rw [if_neg hk, replaceBelow_of_not_mem h g k hkids, replaceKids_of_not_mem h g ks hm.2]
 end
@@ -159,9 +159,9 @@ mutual
     | k :: ks, acc => by
       intro hm
       simp only [handlesList_cons, List.mem_append, not_or] at hm
-      have hk : k.handle ≠ h := fun e => hm.1 (e ▸ handle_mem_handles k)
+      have hk : k.handle ≠ h := fun e => hm.1 (e ▸ fi_handle_mem_handles k)
       have hkids : h ∉ handlesList k.kids := by
-        intro hc; apply hm.1; rw [handles_eq]; exact List.mem_cons_of_mem _ hc
+        intro hc; apply hm.1; rw [fi_handles_eq]; exact List.mem_cons_of_mem _ hc
       unfold ctxKids
       rw [if_neg hk, ctxBelow_of_not_mem h k hkids]
       exact ctxKids_of_not_mem h p ks (acc ++ [k]) hm.2
@@ -225,9 +225,9 @@ theorem replaceKids_append_of_not_mem (h : Nat) (g : HTree → List HTree) (l re
   | nil => rfl
   | cons k ks ih =>
     simp only [handlesList_cons, List.mem_append, not_or] at hm
-    have hk : k.handle ≠ h := fun e => hm.1 (e ▸ handle_mem_handles k)
+    have hk : k.handle ≠ h := fun e => hm.1 (e ▸ fi_handle_mem_handles k)
     have hkids : h ∉ handlesList k.kids := by
-      intro hc; apply hm.1; rw [handles_eq]; exact List.mem_cons_of_mem _ hc
+      intro hc; apply hm.1; rw [fi_handles_eq]; exact List.mem_cons_of_mem _ hc
     simp only [List.cons_append]
     rw [replaceKids_cons, if_neg hk, replaceBelow_of_not_mem h g k hkids, ih hm.2]
 
@@ -241,9 +241,9 @@ theorem ctxKids_append_of_not_mem (h p : Nat) (l rest acc : List HTree) (hm : h 
   | nil => simp
   | cons k ks ih =>
     simp only [handlesList_cons, List.mem_append, not_or] at hm
-    have hk : k.handle ≠ h := fun e => hm.1 (e ▸ handle_mem_handles k)
+    have hk : k.handle ≠ h := fun e => hm.1 (e ▸ fi_handle_mem_handles k)
     have hkids : h ∉ handlesList k.kids := by
-      intro hc; apply hm.1; rw [handles_eq]; exact List.mem_cons_of_mem _ hc
+      intro hc; apply hm.1; rw [fi_handles_eq]; exact List.mem_cons_of_mem _ hc
     simp only [List.cons_append]
     rw [ctxKids_cons, if_neg hk, ctxBelow_of_not_mem h k hkids, Option.none_or]
     rw [ih (acc ++ [k]) hm.2]
